@@ -9,6 +9,15 @@ LEVEL_NOTE = ("Trusted base: clang 14 front end and CFG builder, the gsa-extract
               "Assumes the shipped configuration (GALOIS_USE_LONGJMP_ABORT, NDEBUG).")
 
 CHECKS = {
+    "C13": ("exhaustive evaluation of the shape obligations that make the disjoint-cover lemma (DESIGN.md C13) applicable, on "
+            "every instantiation of the division routines found: ceil-div piece size; upper bound == lower bound with the part "
+            "index advanced by one, both clamped by the same min(size); blockLower(id) == blockUpper(id-1); the two binary "
+            "searches agree except for target and lower bound, the second starting at the first result; lower-bound search "
+            "shape with monotone predicate; scale factors turned into a prefix sum; every stored boundary is an absolute node "
+            "id (units of measure), empty parts copy the previous boundary. Overflow at the extremes and zero-weight corner "
+            "cases inside the search are not decided.",
+            "sibling expression identity under substitution (SIB), units-of-measure (KIND ABS/REL), search-shape rules over "
+            "clang AST facts + paper lemma", "4 C13"),
     "C11": ("narrow: exhaustive classification of every non-local write in every body passed to do_all/on_each in the "
             "local-computation graph headers and FileGraph, and in every per-thread constructFrom builder, for the driver "
             "matrix: each is owner-indexed (loop element / own partition), owner CSR range of a prefix array, a slot claimed by "
